@@ -12,7 +12,7 @@ import (
 
 func init() {
 	register("C19", &propCheck{
-		explain: "Decides the structure that makes 'one record per request, matching what happened' hold on every way a request can end: (R19.1) LoggingMiddleware defers exactly one closure before invoking the next handler (so it runs on early returns and on ReverseProxy's abort panic) and that closure emits exactly one LogAttrs(\"Request\") on every path; no other emitter; the middleware occurs once in the chain, outside the root error pages and inside request id/start (shared R13.5); (R19.2) provenance of each attribute of the record: status and byte count from the counting writer handed to the next handler, method/host/path/query/request id from the request, service/target from the per-request logging context; (R19.3) the counting writer records every WriteHeader, adds Write's returned count, records 101 on a successful hijack, keeps Flush, starts at 200 and does not implement io.ReaderFrom; (R19.4) the logging context is filled where the decision is made: Service before any exit of the service handler, Target and header lists before the proxy runs; every request.WithContext on the request path derives from that request's own context (so the context pointer survives); custom headers are read from the request / the writer's headers under canonicalised names; (R19.5) buffered responses are always sent through the writer (so 499 etc. are recorded).",
+		explain: "Decides the structure that makes 'one record per request, matching what happened' hold on every way a request can end: (R19.1) LoggingMiddleware defers exactly one closure before invoking the next handler (so it runs on early returns and on ReverseProxy's abort panic) and that closure emits exactly one LogAttrs(\"Request\") on every path; no other emitter; the middleware occurs once in the chain, outside the root error pages and inside request id/start (shared R13.5); (R19.2) provenance of each attribute of the record: status and byte count from the counting writer handed to the next handler, method/host/path/query/request id from the request, service/target from the per-request logging context; (R19.3) the counting writer records every WriteHeader, adds Write's returned count, records 101 on a successful hijack, keeps Flush, starts at 200 and does not implement io.ReaderFrom; (R19.4) the logging context is filled where the decision is made: Service before any exit of the service handler, Target and header lists before the proxy runs; every request.WithContext on the request path derives from that request's own context (so the context pointer survives); custom headers are read from the request / the writer's headers under canonicalised names; (R19.5) buffered responses are always sent through the writer (so 499 etc. are recorded). (R19.7) every path on which the pause gate reports a request handled wrote a response (else the record shows a 200 that was never sent).",
 		notDecided: []string{"equality of logged values with wire bytes for arbitrary inputs", "log output formatting", "bytesWritten += len(b) instead of the returned count is value-level and not detectable"},
 		run:        checkC19,
 	})
